@@ -71,7 +71,12 @@ class CHECK(Check):
             setters = None
             if rng.random() < 0.5:
                 setters = self.gen_setters(rng, fs)
-            yield {"fields": fs, "values": vals, "setters": setters}
+            case = {"fields": fs, "values": vals, "setters": setters}
+            if rng.random() < 0.4:
+                # earlier rows written (and read back) through the same Line / Field objects: a Line is normally reused for
+                # every row of its kind, and what it writes must not depend on what it wrote before
+                case["history"] = [[fl.gen_value(rng, fd) for fd in fs] for _ in range(rng.randint(1, 3))]
+            yield case
 
     @staticmethod
     def gen_setters(rng, fs):
@@ -115,6 +120,11 @@ class CHECK(Check):
                     line.delimiter = a
                 else:
                     line.storage = sto_name(a)
+        for hv in case.get("history", []):
+            try:
+                line.read(line.write([fl.py_value(v) for v in hv]))
+            except OverflowError:
+                pass
         try:
             t1 = line.write(vals)
             r = line.read(t1)
@@ -144,6 +154,9 @@ class CHECK(Check):
                     pre.append([2, [] if a is None else [a]])
                 else:
                     pre.append([3, a])
+        for hv in case.get("history", []):
+            hvs = [fl.value_sx(v) for v in hv]
+            pre += [[5, hvs], [9]]
         return [variant, ctor, pre + [[8, vals], [5, vals], [9], [10], [7]]]
 
     def model_obs(self, case, res):
